@@ -948,7 +948,7 @@ Section Final.
 End Final.
 
 (* ------------------------------------------------------------ the round trip, end to end *)
-From GL Require Import Codec.TableIterProofs.
+From GL Require Import Codec.TableIterProofs Codec.TableSliceProofs.
 
 Theorem table_roundtrip tp crc compress decompress fcontains c blockSize ri fgen kvs file verify strict :
   tparams_ok tp -> (forall b, crc b < 2 ^ 32) -> (forall x, decompress (compress x) = Some x) ->
@@ -966,7 +966,10 @@ Theorem table_roundtrip tp crc compress decompress fcontains c blockSize ri fgen
   (exists t, new_titer c rd None strict = inr t /\
      forall ops, fst (ti_run c rd t ops) = c_run c kvs CSOI ops) /\
   (forall k1 k2, cmp c k1 k2 <> Gt ->
-     exists o1 o2, toffset_of c rd k1 = Ok o1 /\ toffset_of c rd k2 = Ok o2 /\ o1 <= o2).
+     exists o1 o2, toffset_of c rd k1 = Ok o1 /\ toffset_of c rd k2 = Ok o2 /\ o1 <= o2) /\
+  (kvs <> [] -> forall start limit,
+     exists t, new_titer c rd (Some (start, limit)) strict = inr t /\
+       forall ops, fst (ti_run c rd t ops) = c_run c (restrict c start limit kvs) CSOI ops).
 Proof.
   intros Htp Hcrc Hcodec Hc Hel Hri Hs Hw Hsz rd.
   destruct (table_wf_of_write tp Htp crc Hcrc compress decompress Hcodec fcontains c Hc Hel blockSize ri Hri fgen kvs file verify Hs Hw Hsz)
@@ -976,5 +979,6 @@ Proof.
   split; [intros k; apply (tget_absent c Hc rd blocks seps hs Hwf)|].
   split; [intros key; apply (tfind_first_ge c Hc rd blocks seps hs Hwf)|].
   split; [apply (table_iter_refines c rd blocks seps hs strict Hc Hwf)|].
-  intros k1 k2. apply (toffset_mono c Hc rd blocks seps hs Hwf).
+  split; [intros k1 k2; apply (toffset_mono c Hc rd blocks seps hs Hwf)|].
+  intros Hne start limit. apply (table_iter_sliced_refines c rd blocks seps hs start limit strict Hc Hwf Hne).
 Qed.
